@@ -16,6 +16,7 @@ import (
 	"strconv"
 	"strings"
 	"sync"
+	"syscall"
 	"time"
 )
 
@@ -92,7 +93,9 @@ type WorkerOut struct {
 	Stats  *Stats  `json:"stats"`
 	Found  []Found `json:"found"`
 	Done   bool    `json:"done"`
-	Digest string  `json:"digest"` // combined digest of all runs (determinism self-test)
+	Digest string  `json:"digest"` // canonical digest of the check's shared scenarios (C16 cross-process)
+	// RunDigest folds step counts, shapes, interleavings and violations of every run
+	RunDigest string `json:"run_digest"`
 }
 
 // Check is one property's machinery.
@@ -180,6 +183,12 @@ func workerMain(args []string) {
 	to, _ := strconv.ParseUint(args[4], 10, 64)
 	out := args[5]
 	deadline := time.Now().Add(time.Duration(envInt("VERIF_WORKER_SECONDS", 3600)) * time.Second)
+	// address-space cap: a run that makes the VM allocate without bound must kill this worker
+	// (fatal error: out of memory), not the machine; the driver reports the seed it died on
+	if gb := envInt("VERIF_WORKER_AS_GB", 10); gb > 0 {
+		lim := syscall.Rlimit{Cur: uint64(gb) << 30, Max: uint64(gb) << 30}
+		syscall.Setrlimit(syscall.RLIMIT_AS, &lim)
+	}
 	st := NewStats()
 	wo := WorkerOut{Stats: st}
 	if c.Shared != nil {
@@ -187,6 +196,7 @@ func workerMain(args []string) {
 	}
 	seen := map[string]bool{}
 	status := out + ".cur"
+	runDig, shapeXor := uint64(0), uint64(0)
 	for i := from; i < to; i++ {
 		if time.Now().After(deadline) {
 			break
@@ -211,7 +221,19 @@ func workerMain(args []string) {
 			}
 			wo.Found = append(wo.Found, Found{V: v, Scenario: fsc, RunIdx: i})
 		}
+		// determinism self-test: everything a run contributes is folded into one number
+		runDig = mix64(runDig ^ uint64(st.Steps) ^ uint64(st.Trivial)<<20 ^ uint64(len(st.Shapes))<<40 ^ uint64(len(vs))<<60)
+		for _, v := range vs {
+			runDig = mix64(runDig ^ h64([]byte(v.Rule+"|"+v.Sig)))
+		}
 	}
+	for h := range st.Shapes {
+		shapeXor ^= mix64(h)
+	}
+	for h := range st.Inter {
+		shapeXor ^= mix64(h + 1)
+	}
+	wo.RunDigest = fmt.Sprintf("%016x%016x", runDig, shapeXor)
 	wo.Done = true
 	for h := range st.Shapes {
 		st.ShapeL = append(st.ShapeL, h)
@@ -425,6 +447,18 @@ func checkMain(id, tier string) int {
 	return 0
 }
 
+func firstLine(s string) string {
+	for _, l := range strings.Split(s, "\n") {
+		if strings.Contains(l, "fatal error") || strings.Contains(l, "signal") {
+			return l
+		}
+	}
+	if i := strings.Index(s, "\n"); i > 0 {
+		return s[:i]
+	}
+	return s
+}
+
 func tail(s string, n int) string {
 	if len(s) > n {
 		return s[len(s)-n:]
@@ -548,6 +582,25 @@ func replayMain(path string) int {
 	if !ok {
 		fmt.Fprintln(os.Stderr, "unknown property", rp.Property)
 		return 2
+	}
+	if strings.HasSuffix(rp.Rule, ".fatal") && os.Getenv("VERIF_REPLAY_CHILD") == "" {
+		// the run killed its worker process: replay it in a child under the same address-space cap
+		self, _ := os.Executable()
+		cmd := exec.Command(self, "replay", path)
+		cmd.Env = append(os.Environ(), "VERIF_REPLAY_CHILD=1", "GOMAXPROCS=2")
+		out, err := cmd.CombinedOutput()
+		if err != nil && (strings.Contains(string(out), "fatal error:") || strings.Contains(string(out), "signal:") || strings.Contains(err.Error(), "signal")) {
+			fmt.Printf("VIOLATION property=%s replay=%s\n  rule=%s signature=%s\n  the run kills the process executing it: %s\n", rp.Property, path, rp.Rule, rp.Sig, firstLine(string(out)))
+			return 1
+		}
+		fmt.Printf("replay: the run did not kill its process this time (exit %v)\n%s\n", err, tail(string(out), 400))
+		return 0
+	}
+	if os.Getenv("VERIF_REPLAY_CHILD") != "" {
+		if gb := envInt("VERIF_WORKER_AS_GB", 10); gb > 0 {
+			lim := syscall.Rlimit{Cur: uint64(gb) << 30, Max: uint64(gb) << 30}
+			syscall.Setrlimit(syscall.RLIMIT_AS, &lim)
+		}
 	}
 	vs := runOne(c, rp.Scenario, NewStats())
 	for _, v := range vs {
